@@ -29,6 +29,8 @@ impl<'a> DeferredNow {
     ///
     /// Requires mutability because the first caller will generate the timestamp.
     pub fn now(&'a mut self) -> &'a DateTime<Local> {
+        #[cfg(flexi_logger_verif)]
+        use crate::verif_hooks::Local;
         self.0.get_or_insert_with(Local::now)
     }
 
